@@ -527,23 +527,23 @@ def script_search(ctx, shim, r, per_font):
 
 
 def markrun_search(ctx, shim, r, per_font, ncorpus):
-    return run_shape_groups(ctx, shim, markrun_requests(r, per_font, ncorpus), "shape-script-random",
+    return run_shape_groups(ctx, shim, markrun_requests(r, per_font, ncorpus), "shape-mark-runs",
                             "per script (28 scripts of C08.SCRIPTS): 1-3 runs of base + 2-6 combining marks drawn from the script's own "
                             "marks, the mark code points written in its shaper's source over-represented (e.g. the Arabic modifier "
                             "combining marks), a small working set per text so that several marks of one class meet, now and then a "
                             "generic mark / CGJ / joiner; synthetic fonts whose GSUB names the script tag (old spec, new spec, USE; with "
                             "and without U+25CC) plus corpus fonts of the script; distinct / gapped / partly repeated input clusters, "
-                            "5 directions, levels 0/1 (1 in 8: level 2), flags", gen="mark-runs")
+                            "5 directions, levels 0/1 (1 in 8: level 2), flags")
 
 
 def special_search(ctx, shim, r, exh_len, grid, per_font, ncorpus):
-    return run_shape_groups(ctx, shim, special_requests(r, exh_len, grid, per_font, ncorpus), "shape-script-random",
+    return run_shape_groups(ctx, shim, special_requests(r, exh_len, grid, per_font, ncorpus), "shape-special-seq",
                             f"per script: EVERY order of up to {exh_len} symbols over the script's roles (RA, virama(s), ZWJ, ZWNJ, nukta, "
                             f"two consonants, a matra; roles from the Unicode names / combining classes) at (level, flags) in {grid}, "
                             "guessed direction, consecutive clusters (flag 4 = PRESERVE_DEFAULT_IGNORABLES and fonts with a space glyph, "
                             "so that joiners survive); then random sequences of 4-7 characters over the roles, other consonants / matras "
                             "of the script and the code points written in the shaper's source, random direction / level 0,1 / flags / "
-                            "input clusters; same fonts as mark-runs", gen="special-sequences")
+                            "input clusters; same fonts as shape-mark-runs")
 
 
 def shaper_class(q):
@@ -612,9 +612,7 @@ def _font_name(reg):
     return t[2] if t[0] == "fontfile" else "synthetic:" + t[1]
 
 
-def run_shape_groups(ctx, shim, groups, stream, what, gen=None):
-    """gen: name of a structured generator whose requests are judged (and replayed) as part of `stream`; it is accounted
-    under `stream/gen` in the evidence"""
+def run_shape_groups(ctx, shim, groups, stream, what):
     lines = [[reg] + [q for q, _ in reqs] for reg, reqs in groups]
     outs = vlib.run_groups(shim, lines, timeout=1200)
     total = nontriv = crashed = 0
@@ -636,27 +634,20 @@ def run_shape_groups(ctx, shim, groups, stream, what, gen=None):
                 if meta[2] in ("r", "b"): dist["backward+kern_off"] += 1
             for kind, detail in check_shape(meta, gl):
                 cls = request_class(shim, q)
-                if stream == "shape-clusters" and not (kind == "monotone" and cls == "indic-shaper"):
-                    key = (kind, "kern=0" if meta[4] else "kern", meta[2] in ("r", "b"))
-                else:
-                    # also an input of the known class F13 that the corpus stream happens to draw (its random strings over a
-                    # font's corpus alphabet): judged and recorded like the script streams, whose name the signature carries
-                    key = (kind, f"level {meta[3]}", cls)
+                key = (kind, "kern=0" if meta[4] else "kern", meta[2] in ("r", "b"), cls) if stream == "shape-clusters" else (kind, f"level {meta[3]}", cls)
                 found.setdefault(key, []).append((len(q), reg, q, meta, rep, detail))
     for key, lst in sorted(found.items(), key=lambda kv: str(kv[0])):
         lst.sort(key=lambda x: x[0])
         _, reg, q, meta, rep, detail = lst[0]
-        by_class = isinstance(key[2], str)
-        ctx.violation(f"shape(): output clusters violate C02 ({key[0]}, {key[1]}, {(('backward' if key[2] else 'forward/guessed') + ' direction') if not by_class else 'shape-script-random ' + str(key[2])}; "
-                      f"{len(lst)} shapings, {len(set(x[1] for x in lst))} fonts{'; generator ' + gen if gen else ''}): {detail}; text {q.split()[10]}, input clusters {meta[1]}, "
+        ctx.violation(f"shape(): output clusters violate C02 ({key[0]}, {key[1]}, {(('backward' if key[2] else 'forward/guessed') + ' direction, ' + key[3]) if stream == 'shape-clusters' else stream + ' ' + str(key[2])}; "
+                      f"{len(lst)} shapings, {len(set(x[1] for x in lst))} fonts): {detail}; text {q.split()[10]}, input clusters {meta[1]}, "
                       f"output clusters {[g[1] for g in parse_shape(rep)]}",
-                      {"stage": "search", "stream": "shape-script-random" if by_class else stream, "found_by": stream + ("/" + gen if gen else ""),
-                       "font_line": reg, "request": q, "case": meta[0],
+                      {"stage": "search", "stream": stream, "font_line": reg, "request": q, "case": meta[0],
                        "input_clusters": meta[1], "dir": meta[2], "level": meta[3], "kern_off": meta[4], "kind": key[0],
-                       "class": key[2] if by_class else shaper_class(q), "generator": gen or "random",
+                       "class": key[-1],
                        "observed": rep[:3000], "fonts": sorted(set(_font_name(x[1]) for x in lst))[:40], "count": len(lst),
                        "more_examples": [{"font": _font_name(x[1]), "request": x[2], "reply": x[4][:600]} for x in lst[1:6]]})
-    ctx.note_search(stream + ("/" + gen if gen else ""), total, nontriv, crashed_or_aborted=crashed, distribution=dist,
+    ctx.note_search(stream, total, nontriv, crashed_or_aborted=crashed, distribution=dist,
                     violations_by_kind={str(k): len(v) for k, v in found.items()},
                     rule=what + "; oracles: output cluster values ⊆ input values; the smallest input value is "
                          "present (levels 0/1, non-empty output); non-decreasing for ltr/ttb, non-increasing for rtl/btt, either for a "
@@ -805,7 +796,7 @@ def replay(ctx, rp):
         d = check_trace(rp["request"], a)
         print("deviations:", d)
         return 1 if (d or canon(a) != b) else 0
-    if rp.get("stream") in ("shape-clusters", "shape-script-random"):
+    if rp.get("stream") in ("shape-clusters", "shape-script-random", "shape-mark-runs", "shape-special-seq"):
         o = vlib.run_groups(shim, [[rp["font_line"], rp["request"]]], nproc=1)[0]
         print("font   :", rp["font_line"]); print("request:", rp["request"]); print("reply  :", o[1][:3000])
         gl = parse_shape(o[1])
